@@ -251,7 +251,7 @@ def check_iteration(ctx, cont, kind):
 def plan(tier, seed):
     n = 16 * 4 if tier == "quick" else 16 * 120
     return [["score", i] for i in range(n)] + [["perf", i] for i in range(n // 2)] + [["iter", i] for i in range(n // 4)] \
-        + [["match", i] for i in range(n // 2)] \
+        + [["match", i] for i in range(n // 2)] + [["repeat", i] for i in range(n // 2)] \
         + [["divchange", i] for i in range(n // 4)]
 
 
@@ -309,6 +309,34 @@ def run_item(ctx, item):
         if isinstance(sc.part_structure[0], S.PartGroup):
             ctx.try_call(sc.part_structure[0].pretty)
         check_iteration(ctx, sc, "Score")
+    elif kind == "repeat":
+        # analyses on bare note arrays with many simultaneous notes (ties in every sort key), each called three times:
+        # a result that depends on memory addresses or on hidden state shows up as a difference between the calls
+        import numpy as np
+        n_ = rng.randint(8, 80)
+        grid = rng.choice([1, 2, 4])
+        onsets = sorted(rng.randint(0, 12 * grid) / grid for _ in range(n_))
+        rows = [(o, rng.choice([0.25, 0.5, 0.5, 1.0, 2.0]), rng.randint(36, 96), f"r{i}") for i, o in enumerate(onsets)]
+        if rng.random() < 0.5:
+            rng.shuffle(rows)
+        na = np.array([(o, d, o, d, p, i) for o, d, p, i in rows],
+                      dtype=[("onset_beat", "f4"), ("duration_beat", "f4"), ("onset_quarter", "f4"), ("duration_quarter", "f4"), ("pitch", "i4"), ("id", "U16")])
+        import partitura.musicanalysis as MA
+        for name, fn in (("estimate_voices", lambda: MA.estimate_voices(na)),
+                         ("estimate_voices-chords", lambda: MA.estimate_voices(na, monophonic_voices=False)),
+                         ("estimate_spelling", lambda: MA.estimate_spelling(na)),
+                         ("estimate_key", lambda: MA.estimate_key(na))):
+            outs = []
+            for _ in range(3):
+                ok, r_ = ctx.try_call(fn)
+                if not ok:
+                    break
+                outs.append(r_)
+            ctx.check()
+            if len(outs) == 3 and not (same_result(outs[0], outs[1]) and same_result(outs[0], outs[2])):
+                ctx.violation(f"second-call-differs:{name.split('-')[0]}", f"{name} called three times on the same note array of {n_} rows gave different results",
+                              {"entry_point": name, "rows": [list(map(float, r_[:3])) for r_ in rows[:40]]})
+            ctx.case([name, item[1]], True, cls="repeat:" + name, sample={"entry_point": name, "rows": n_})
     elif kind == "match":
         # export of an alignment to a match file: the alignment, the performance and the score are all arguments
         from workloads import c08_align
